@@ -13,18 +13,18 @@ REG.uf('yaml_ndocs', 'int', 'int')
 REG.uf('yaml_doc', 'int', 'int', 'int')
 REG.contract('builtins.open', params={'path': 'strid'}, returns='int', pure=True, ensures=['result == fh(path)'],
              trusted='open(path): a handle determined by the path (file contents are fixed during a run)')
-REG.contract('json.load', params={'f': 'int'}, returns='optint', pure=True, ensures=['notnone(result) and result == json_parse(f)'],
+REG.contract('json.load', params={'f': 'int'}, returns='optdata', pure=True, ensures=['notnone(result) and result == json_parse(f)'],
              trusted='stdlib json.load: the parsed data is a function of the file')
-REG.contract('json5.load', params={'f': 'int'}, returns='optint', pure=True, ensures=['notnone(result) and result == json5_parse(f)'],
+REG.contract('json5.load', params={'f': 'int'}, returns='optdata', pure=True, ensures=['notnone(result) and result == json5_parse(f)'],
              trusted='json5.load: the parsed data is a function of the file')
-REG.contract('plistlib.load', params={'f': 'int'}, returns='optint', pure=True, ensures=['notnone(result) and result == plist_parse(f)'],
+REG.contract('plistlib.load', params={'f': 'int'}, returns='optdata', pure=True, ensures=['notnone(result) and result == plist_parse(f)'],
              trusted='plistlib.load: the parsed data is a function of the file')
-REG.contract('yaml.load_all', params={'stream': 'int'}, returns='list[optint]', pure=True,
+REG.contract('yaml.load_all', params={'stream': 'int'}, returns='list[optdata]', pure=True,
              ensures=['len(result) == yaml_ndocs(stream)',
                       'forall(i, 0, len(result), notnone(result[i]) and result[i] == yaml_doc(stream, i))'],
              trusted='yaml.load_all: the document stream is a function of the file')
 # json.build_tree is a function of (data, options): abstracted here; its own conversion is C18
-REG.contract('json.build_tree', params={'python_obj': 'optint', 'options': 'optref[BuildOptions]', 'force_leaf_node': 'bool'},
+REG.contract('json.build_tree', params={'python_obj': 'optdata', 'options': 'optref[BuildOptions]', 'force_leaf_node': 'bool'},
              returns='ref[TreeNode]', allocates=True,
              ensures=['isnew(result)', 'nodeval(result) == treeval(ite(isnone(python_obj), 0, python_obj), optkey(options))'],
              trusted='json.build_tree(data, options) depends only on its arguments (reads no mutable global except the '
